@@ -135,6 +135,8 @@ static void c02(const Trace& t, const Analysis& A, Verdict& V) {
 				V.add(2, w.e - 1, F("expected exactly reenter(s%d); saw %zu lifecycle callbacks", sidOf(want), ls.v.size()));
 		} else if (!ls.v.empty()) V.add(2, ls.at[0], "no request survived but enter/exit/reenter ran");
 		for (uint32_t at : ls.at) if (at < lastGuard) V.add(2, at, "lifecycle callback before guard processing finished");
+		// (b') the most recent request that no guard cancelled is the one that takes effect: it may not be dropped on the way
+		if (w.lostRequest.valid) V.add(2, w.e - 1, F("the most recent request, %s, was not cancelled by any guard, yet it was never processed (the call ended in s%d)", trStr(w.lostRequest).c_str(), sidOf(e.mAct)));
 		// (c) the request evaluated first is the last one made before processing started
 		if (w.outAtStart.valid) {
 			if (w.rounds.empty()) V.add(2, w.e - 1, F("outstanding request %s was never evaluated", trStr(w.outAtStart).c_str()));
@@ -237,6 +239,10 @@ static void c04(const Trace& t, const Analysis& A, Verdict& V) {
 			if (w.rounds.size() > size_t(f.L) + 1) V.add(4, w.rounds[f.L + 1].first, F("%zu entry-guard evaluations during activation, limit is 1+%u", w.rounds.size(), f.L));
 			const Ev& e = t.ev[w.e - 1];
 			if (e.mAct == NOID) V.add(4, w.e - 1, "activation ended without an active state");
+			else if (w.rounds.size() >= 2 && !f.bare) {
+				const uint8_t want = w.survivor >= 1 ? w.rounds[w.survivor].pend.dest : 0;
+				if (e.mAct != want) V.add(4, w.e - 1, F("after %zu entry-guard rounds activation ended in s%d, but the state chosen among the redirects that passed their guards is s%d", w.rounds.size(), sidOf(e.mAct), sidOf(want)));
+			}
 		}
 	}
 }
@@ -484,17 +490,21 @@ static void c15(const Trace& t, const Analysis& A, Verdict& V) {
 			++j;
 		}
 		const int k = isOutcome(e.method) ? 0 : injOf(f, e.state);
-		const size_t block = size_t(k) + 1;
+		const bool own = isOutcome(e.method) || defines(f, e.state, e.method);   // a state that does not define the callback contributes none of its own
+		const size_t block = size_t(k) + (own ? 1 : 0);
+		if (block == 0) { V.add(15, run[0], F("s%d.%s ran although neither the state nor an injection defines it", sidOf(e.state), methName(e.method))); i = j > i ? j : i + 1; continue; }
 		const bool fwd = e.method == M_ENTRY_GUARD || e.method == M_ENTER || e.method == M_REENTER || e.method == M_PRE_UPDATE || e.method == M_UPDATE || e.method == M_PRE_REACT || e.method == M_REACT;
 		const bool rev = e.method == M_EXIT || e.method == M_POST_UPDATE || e.method == M_POST_REACT;
-		if (run.size() % block != 0) V.add(15, run[0], F("s%d.%s: %zu callbacks for a state with %d injections (each delivery must invoke %zu)", sidOf(e.state), methName(e.method), run.size(), k, block));
+		// lifecycle and phase events reach a state at most once per API call (only guard rounds can repeat back to back), so the run is ONE delivery
+		if (!isGuard(e.method) && run.size() != block) V.add(15, run[0], F("s%d.%s: one %s event invoked %zu callbacks; with %d injection(s)%s exactly %zu are due (each injection once%s)", sidOf(e.state), methName(e.method), methName(e.method), run.size(), k, own ? " and the state's own callback" : ", the state defining none itself,", block, own ? ", the state once" : ""));
+		else if (run.size() % block != 0) V.add(15, run[0], F("s%d.%s: %zu callbacks for a state with %d injections (each delivery must invoke %zu)", sidOf(e.state), methName(e.method), run.size(), k, block));
 		else for (size_t b = 0; b + block <= run.size(); b += block) {
 			uint32_t seen = 0; bool once = true;
-			for (size_t q = 0; q < block; ++q) { const uint8_t w = t.ev[run[b + q]].who; const int idx = w == WHO_SELF ? k : w; if (idx > k || (seen >> idx) & 1) once = false; else seen |= 1u << idx; }
+			for (size_t q = 0; q < block; ++q) { const uint8_t w = t.ev[run[b + q]].who; const int idx = w == WHO_SELF ? k : w; if (idx > k || (idx == k && !own) || (seen >> idx) & 1) once = false; else seen |= 1u << idx; }
 			if (!once) { V.add(15, run[b], F("s%d.%s: an injection or the state itself was not invoked exactly once", sidOf(e.state), methName(e.method))); continue; }
 			for (size_t q = 0; q < block && (fwd || rev); ++q) {
 				const uint8_t w = t.ev[run[b + q]].who; const int idx = w == WHO_SELF ? k : w;
-				const int want = fwd ? int(q) : int(block - 1 - q);
+				const int want = fwd ? int(q) : int(k - (own ? 0 : 1)) - int(q);
 				if (idx != want) { V.add(15, run[b + q], F("s%d.%s: wrong nesting order of injections (position %zu has index %d, expected %d)", sidOf(e.state), methName(e.method), q, idx, want)); break; }
 			}
 		}
@@ -508,6 +518,8 @@ static void c14(const Trace& t, const Analysis& A, Verdict& V) {
 		const Ev& e = t.ev[i];
 		if (e.kind != EV_CB || instDeadAt(A, i)) continue;
 		if (!e.thisOk) V.add(14, i, F("s%d.%s ran on an object that is not machine.access<T>() (who=%d)", sidOf(e.state), methName(e.method), e.who == WHO_SELF ? -1 : e.who));
+		if (!e.ctmplOk) V.add(14, i, F("inside s%d.%s the control's type-addressed forms (stateId<T>(), isActive<T>()) do not resolve T to its declaration position", sidOf(e.state), methName(e.method)));
+		if (e.live && !e.tmplOk) V.add(14, i, "the machine's type-addressed forms (stateId<T>(), isActive<T>()) do not resolve T to its declaration position");
 	}
 	const Info& f = t.info;
 	for (const Win& w : A.wins) {
